@@ -25,6 +25,6 @@ one() {
   git -C /repo worktree remove --force "$scratch" >/dev/null 2>&1; rm -rf "$scratch"
 }
 export -f one; export root
-ls -d "$root"/seeded/$glob/ 2>/dev/null | grep -v RESULTS | xargs -P 3 -I{} bash -c 'one {}' | tee -a "$out.tmp"
+ls -d "$root"/seeded/$glob/ 2>/dev/null | grep -v RESULTS | xargs -P ${RECHECK_PAR:-3} -I{} bash -c 'one {}' | tee -a "$out.tmp"
 sort "$out.tmp" > "$out"; rm -f "$out.tmp"
 echo "== not caught:"; grep -v "exit=1 " "$out" || echo "(none)"
